@@ -31,8 +31,8 @@ MISSING = object()
 # (cfg suffix, MaxOps is in the cfg) per tier; every part is one TLC model-checking run
 PARTS = {
     "quick": ["Context_MC_quick.cfg", "Context_MC_quick_cleanups.cfg", "Context_MC_quick_reduced.cfg"],
-    "thorough": ["Context_MC_thorough.cfg", "Context_MC_thorough_cleanups.cfg", "Context_MC_thorough_cleanups4.cfg",
-                 "Context_MC_thorough_reduced.cfg"],
+    "thorough": ["Context_MC_thorough.cfg", "Context_MC_thorough_attrs4.cfg", "Context_MC_thorough_cleanups.cfg",
+                 "Context_MC_thorough_cleanups4.cfg", "Context_MC_thorough_reduced.cfg"],
 }
 SIM_CFG = "Context_MC_thorough_sim.cfg"
 
@@ -353,137 +353,166 @@ def random_history(rnd, length):
 
 
 # ---------------------------------------------------------------- judging
-def judge(chk, rows, origin):
-    """rows: list of {"id", "ops", "obs"}; origin: id -> text.  Reports verdicts, returns number of diverging rows."""
+class Verdicts(object):
+    """Collects the judge's verdicts; per signature only the KEEP shortest histories are kept in full."""
+    KEEP = 40
+
+    def __init__(self):
+        self.best = {}          # sig -> list of (len(ops), serial, clause, text, ops)
+        self.count = {}
+        self.serial = 0
+        self.diverging = 0
+
+    def add(self, clause, sig, text, ops):
+        self.serial += 1
+        self.count[sig] = self.count.get(sig, 0) + 1
+        lst = self.best.setdefault(sig, [])
+        lst.append((len(ops), self.serial, clause, text, ops))
+        if len(lst) > 4 * self.KEEP:
+            lst.sort()
+            del lst[self.KEEP:]
+
+    def flush(self, chk):
+        for sig in sorted(self.best):
+            for _, _, clause, text, ops in sorted(self.best[sig])[:self.KEEP]:
+                chk.violation(clause, sig, text, {"ops": ops})
+        chk.extra["verdicts_by_signature"] = dict(self.count)
+        chk.divergences = self.diverging
+
+
+def judge(chk, rows, origin, out):
+    """rows: list of {"id", "ops", "obs"} -> verdicts into `out` (Verdicts)."""
+    if not rows:
+        return
     r0 = len(chk.tlc_runs)
-    verdicts = trace.judge_rows(chk, "Context_Trace", rows, chunks=4, min_chunk=400)
+    verdicts = trace.judge_rows(chk, "Context_Trace", rows, chunks=CHUNKS, min_chunk=400)
     byid = {row["id"]: row for row in rows}
     found = []
     for rid, vs in verdicts.items():
         for v in vs:
-            found.append((len(byid[rid]["ops"]), rid, v))
+            found.append((rid, v))
     # the judge counts the verdicts it printed: a verdict line that was not parsed is a machinery failure
     printed = sum(t[1] for _, _, res in chk.tlc_runs[r0:] for t in res.by_tag("NVERDICTS"))
     if printed != len(found):
         raise TlcError("Context_Trace printed %d verdicts, %d were parsed" % (printed, len(found)))
-    found.sort(key=lambda t: (t[0], t[1], t[2][3]))
-    for _, rid, v in found:
+    for rid, v in found:
         clause, step, opcode, detail, kf = "C13." + v[2], v[3], v[4], v[5], v[6]
         row = byid[rid]
         sig = "%s|%s:%s|%s" % (clause, OPNAME[opcode] if 0 < opcode < len(OPNAME) else "row", detail,
                                "KF_C13_%d" % kf if kf else "-")
         text = "history [%s] step %d: observed %s (%s)" % (
             pretty(row["ops"], step), step, json.dumps(show_obs(row["obs"][step - 1]) if 0 < step <= len(row["obs"]) else {},
-                                                       sort_keys=True), origin.get(rid, ""))
-        chk.violation(clause, sig, text, {"ops": row["ops"]})
+                                                       sort_keys=True), origin)
+        out.add(clause, sig, text, row["ops"])
     diverging = set()
     for _, _, res in chk.tlc_runs[r0:]:
         for t in res.by_tag("DIVERGE"):
             diverging.add(t[1])
         res.tuples = []          # free memory
-    return len(diverging)
+    out.diverging += len(diverging)
+
+
+class Session(object):
+    """Replays histories in batches, hands every batch to the judge, keeps only counters."""
+    BATCH = 60000
+
+    def __init__(self, chk):
+        self.chk = chk
+        self.world = World()
+        self.out = Verdicts()
+        self.rows = []
+        self.origin = ""
+        self.nrows = 0
+        self.nsteps = 0
+        self.by_op = {}
+        self.mismatching = 0
+        self.samples = []
+        self.sink = io.StringIO()
+
+    def feed(self, origin, ops, predicted=None):
+        if origin != self.origin:
+            self.drain()
+            self.origin = origin
+        stdout = sys.stdout
+        sys.stdout = self.sink          # Context.print_cleanup_error writes to sys.stdout
+        try:
+            obs = replay_history(self.world, ops)
+        finally:
+            sys.stdout = stdout
+            self.sink.seek(0)
+            self.sink.truncate()
+        if predicted is not None and predicted != obs:
+            self.mismatching += 1
+        self.nrows += 1
+        self.nsteps += len(ops)
+        for op in ops:
+            name = OPNAME[op[0]]
+            self.by_op[name] = self.by_op.get(name, 0) + 1
+        if self.nrows in (1, 5000, 20000):
+            self.samples.append({"history": pretty(ops), "last_observation": show_obs(obs[-1])})
+        self.rows.append({"id": self.nrows, "ops": ops, "obs": obs})
+        if len(self.rows) >= self.BATCH:
+            self.drain()
+
+    def drain(self):
+        if self.rows:
+            judge(self.chk, self.rows, self.origin, self.out)
+            self.rows = []
 
 
 def run(chk):
-    world = World()
+    ses = Session(chk)
     rnd = random.Random(chk.seed)
-    rows = []
-    origin = {}
     seen = set()
     stats = {}
-    mismatching = 0
     kf_predicted = {}
-    sink = io.StringIO()
-    stdout = sys.stdout
-    for cfg in PARTS[chk.tier]:
-        r = chk.tlc("Context_MC", cfg, timeout=2400, workers=WORKERS, coverage=False, heap="8g")
+    runs = [(cfg, {}) for cfg in PARTS[chk.tier]]
+    if not chk.quick():
+        runs.append((SIM_CFG, {"simulate": SIM_TRACES, "depth": 70}))
+    for cfg, kw in runs:
+        r = chk.tlc("Context_MC", cfg, timeout=2400, workers=WORKERS, coverage=False, heap="8g", **kw)
         for name in r.violated:
             chk.violation("C13.design." + name, "design:%s" % name,
                           "TLC: invariant %s violated in Context_MC (%s)" % (name, cfg))
         cases = r.by_tag("CASE")
         r.tuples = []
         n = 0
-        sys.stdout = sink
-        try:
-            for t in cases:
-                case = json.loads(t[1])
-                k = json.dumps(case["ops"])
-                if k in seen:
-                    continue
+        for t in cases:
+            case = json.loads(t[1])
+            k = t[1][:t[1].index('"obs"')] if '"obs"' in t[1] else t[1]
+            if k in seen:
+                continue
+            if not kw:
                 seen.add(k)
-                n += 1
-                rid = len(rows) + 1
-                obs = replay_history(world, case["ops"])
-                if obs != case["obs"]:
-                    mismatching += 1
-                for f in case["kf"]:
-                    kf_predicted[f] = kf_predicted.get(f, 0) + 1
-                rows.append({"id": rid, "ops": case["ops"], "obs": obs})
-                origin[rid] = cfg
-                sink.seek(0)
-                sink.truncate()
-        finally:
-            sys.stdout = stdout
+            n += 1
+            for f in case["kf"]:
+                kf_predicted[f] = kf_predicted.get(f, 0) + 1
+            ses.feed(cfg, case["ops"], case["obs"])
+        del cases
         stats[cfg] = n
+        seen.clear()            # the parts have different alphabets; duplicates across parts are rare and harmless
     chk.exhaustive = True
-    # ---- TLC -simulate (thorough): long behaviours of the complete alphabet
-    if not chk.quick():
-        r = chk.tlc("Context_MC", SIM_CFG, timeout=1200, workers=WORKERS, simulate=SIM_TRACES, depth=70, heap="4g")
-        for name in r.violated:
-            chk.violation("C13.design." + name, "design:%s" % name,
-                          "TLC: invariant %s violated in Context_MC -simulate (%s)" % (name, SIM_CFG))
-        n = 0
-        sys.stdout = sink
-        try:
-            for t in r.by_tag("CASE"):
-                case = json.loads(t[1])
-                rid = len(rows) + 1
-                obs = replay_history(world, case["ops"])
-                if obs != case["obs"]:
-                    mismatching += 1
-                rows.append({"id": rid, "ops": case["ops"], "obs": obs})
-                origin[rid] = SIM_CFG
-                n += 1
-                sink.seek(0)
-                sink.truncate()
-        finally:
-            sys.stdout = stdout
-        r.tuples = []
-        stats[SIM_CFG] = n
     # ---- seeded random histories generated here (the prediction is computed by the judge)
-    nrand = 1500 if chk.quick() else 20000
-    sys.stdout = sink
-    try:
-        for j in range(nrand):
-            ops = random_history(rnd, rnd.randint(5, 60))
-            rid = len(rows) + 1
-            rows.append({"id": rid, "ops": ops, "obs": replay_history(world, ops)})
-            origin[rid] = "random"
-            sink.seek(0)
-            sink.truncate()
-    finally:
-        sys.stdout = stdout
+    nrand = 1000 if chk.quick() else 20000
+    for _ in range(nrand):
+        ses.feed("random", random_history(rnd, rnd.randint(5, 60)))
     stats["random"] = nrand
-    diverging = judge(chk, rows, origin)
-    chk.divergences = diverging
-    chk.impl_traces = len(rows)
-    chk.evaluations = sum(len(row["ops"]) for row in rows)
-    by_op = {}
-    for row in rows:
-        for op in row["ops"]:
-            by_op[OPNAME[op[0]]] = by_op.get(OPNAME[op[0]], 0) + 1
-    chk.extra["distinct_nontrivial"] = len(rows)
+    ses.drain()
+    ses.out.flush(chk)
+    chk.impl_traces = ses.nrows
+    chk.evaluations = ses.nsteps
+    chk.extra["distinct_nontrivial"] = ses.nrows
     chk.extra["histories_by_part"] = stats
-    chk.extra["operations_by_kind"] = by_op
-    chk.extra["emitted_prediction_mismatches"] = mismatching
+    chk.extra["operations_by_kind"] = ses.by_op
+    chk.extra["emitted_prediction_mismatches"] = ses.mismatching
     chk.extra["histories_predicted_to_hit_known_finding"] = kf_predicted
-    for row in (rows[0], rows[len(rows) // 2], rows[-1]):
-        chk.sample({"history": pretty(row["ops"]), "last_observation": show_obs(row["obs"][-1])})
+    for s in ses.samples:
+        chk.sample(s)
     chk.rule = ("every history = prelude (0..3 nested scopes) + all operation sequences up to the length bound of each "
-                "alphabet part (cfg files) + closing pops/end of run; plus seeded random histories of length <= 60; "
-                "after EVERY operation `in`/getattr for 5 names, exception type, warnings, executed cleanups are "
-                "recorded; distinct = distinct operation sequences; divergences = histories where the "
-                "implementation model's prediction differs from the observation")
+                "alphabet part (cfg files) + closing pops/end of run; plus TLC -simulate behaviours (thorough) and seeded "
+                "random histories of length <= 60; after EVERY operation `in`/getattr for 5 names, exception type, "
+                "warnings, executed cleanups are recorded; distinct = distinct operation sequences; divergences = "
+                "histories where the implementation model's prediction differs from the observation")
     chk.assumptions = [
         "cleanup callables raise subclasses of Exception only (BaseException aborts _do_cleanups by design)",
         "no user-installed context.on_cleanup_error handler; fail_on_cleanup_errors keeps its default",
@@ -500,21 +529,16 @@ def run(chk):
     # -----------------------------------------------------------------------------------------------------
 
 
-WORKERS = 4
+WORKERS = 4         # TLC workers of the model-checking runs (registered checks may use 16)
+CHUNKS = 4          # parallel judge processes
 SIM_TRACES = 3000
 
 
 def replay(chk, payload):
-    world = World()
+    ses = Session(chk)
     ops = payload["replay"]["ops"]
-    sink = io.StringIO()
-    stdout = sys.stdout
-    sys.stdout = sink
-    try:
-        obs = replay_history(world, ops)
-    finally:
-        sys.stdout = stdout
-    rows = [{"id": 1, "ops": ops, "obs": obs}]
-    chk.divergences = judge(chk, rows, {1: "replay"})
+    ses.feed("replay", ops)
+    ses.drain()
+    ses.out.flush(chk)
     chk.impl_traces = 1
-    chk.sample({"replayed": pretty(ops), "observations": [show_obs(o) for o in obs]})
+    chk.sample({"replayed": pretty(ops)})
